@@ -21,6 +21,7 @@ class World:
     def __init__(self, g, exit_if_empty=False):
         self.g = g
         self.log, self.bad, self.inside = [], [], [0]
+        self.clock_at = {}
         self.seq = [0]
         self.threads_started = [0]
         w = self
@@ -48,6 +49,7 @@ class World:
             if gate.Clock.t < due:
                 self.bad.append("%s started at %s before its due time %s" % (name, gate.Clock.t, due))
             self.log.append((name, self.g.me(), self.tick()))
+            self.clock_at[name] = gate.Clock.t
             if busy:
                 gsleep(busy)
             else:
@@ -66,13 +68,29 @@ def scenario(name, w):
     if name == "two_immediate":
         return [lambda: (s.schedule(w.act("A")), s.schedule(w.act("B")))], lambda: [n for n, _, _ in w.log] == ["A", "B"]
     if name == "timed_and_immediate":
-        return [lambda: (s.schedule_relative(R(2), w.act("T", 2)), s.schedule(w.act("I")))], lambda: [n for n, _, _ in w.log] == ["I", "T"]
+        def c():
+            s.schedule_relative(R(2), w.act("T", 2))
+            s.schedule(w.act("I"))
+            marks["i_at"] = gate.Clock.t  # a slow client may get I enqueued only after T has come due: then T may run first
+        return [c], lambda: sorted(n for n, _, _ in w.log) == ["I", "T"] and (marks["i_at"] >= 2 or [n for n, _, _ in w.log] == ["I", "T"])
+    # due-time order is required of actions that were all enqueued before the first of them came due (a slow client -- the move
+    # 'time passes' between its two calls -- may enqueue the second one after the first has already run)
+    def ordered(names, first_due):
+        got = [n for n, _, _ in w.log]
+        return sorted(got) == sorted(names) and (marks.get("done_at", 0) >= first_due or got == names)
+
     if name == "two_timed_same_due":
-        return [lambda: (s.schedule_relative(R(1), w.act("T1", 1)), s.schedule_relative(R(1), w.act("T2", 1)))], \
-            lambda: [n for n, _, _ in w.log] == ["T1", "T2"]
+        def c():
+            s.schedule_relative(R(1), w.act("T1", 1))
+            s.schedule_relative(R(1), w.act("T2", 1))
+            marks["done_at"] = gate.Clock.t
+        return [c], lambda: ordered(["T1", "T2"], 1)
     if name == "timed_order":
-        return [lambda: (s.schedule_relative(R(2), w.act("T2", 2)), s.schedule_relative(R(1), w.act("T1", 1)))], \
-            lambda: [n for n, _, _ in w.log] == ["T1", "T2"]
+        def c():
+            s.schedule_relative(R(2), w.act("T2", 2))
+            s.schedule_relative(R(1), w.act("T1", 1))
+            marks["done_at"] = gate.Clock.t
+        return [c], lambda: ordered(["T1", "T2"], 1)
     if name == "overdue_timed_before_later_immediate":
         def c():
             s.schedule(w.act("A", busy=2.0))
@@ -85,7 +103,10 @@ def scenario(name, w):
             d = s.schedule(w.act("A"))
             d.dispose()
             marks["cancelled"] = w.tick()
-        return [c], lambda: all(q < marks["cancelled"] for n, _, q in w.log if n == "A")
+            marks["cancelled_at"] = gate.Clock.t
+        # an action whose cancellation check the loop had already passed may still start in the same instant (a call in flight on
+        # another thread is not claimed); it may never start at a later time
+        return [c], lambda: all(q < marks["cancelled"] or w.clock_at[n] <= marks["cancelled_at"] for n, _, q in w.log if n == "A")
     if name == "cancel_while_other_runs":
         def c():
             s.schedule(w.act("A", busy=1.0))
@@ -93,7 +114,8 @@ def scenario(name, w):
             gsleep(0.5)
             db.dispose()
             marks["cancelled"] = w.tick()
-        return [c], lambda: all(q < marks["cancelled"] for n, _, q in w.log if n == "B") and "A" in [n for n, _, _ in w.log]
+            marks["cancelled_at"] = gate.Clock.t
+        return [c], lambda: all(q < marks["cancelled"] or w.clock_at[n] <= marks["cancelled_at"] for n, _, q in w.log if n == "B") and "A" in [n for n, _, _ in w.log]
     if name == "dispose_then_schedule":
         def c():
             s.schedule(w.act("A"))
@@ -151,6 +173,8 @@ def h_loop(a, inst):
                 ok = False
             if ok:
                 ok = bool(check())
+            if not ok and __import__("os").environ.get("VERIF_DEBUG"):
+                print("DEBUG", r, g.errors, w.bad, w.log, g.done, file=__import__("sys").stderr)
             try:
                 w.sch.dispose()
             except Exception:
